@@ -350,7 +350,7 @@ def shards(tier, seed):
 CONFIGS = [(w, e, True) for w in ("plain", "natural") for e in (True, False)] + [("plain", True, False), ("plain", False, False), ("natural", True, False)]
 
 
-SHARD_TIMEOUT = dict(quick=3600, thorough=6 * 3600)
+SHARD_TIMEOUT = dict(quick=4 * 3600, thorough=12 * 3600)  # watchdog only; the box may be heavily overloaded
 WARM = dict(
     plain=[("get", "Plain", 2), ("add", "x", None), ("set", "b1", "name", "w"), ("begin_nested",), ("delete", "b1"), ("sp_rollback",), ("flush",), ("commit",), ("set", "x", "name", "q"), ("rollback",), ("touch", "x", "name"), ("close",)],
     natural=[("get", "NNode", "k1"), ("add", "n", None), ("set", "b1", "code", "k2"), ("begin_nested",), ("delete", "b1"), ("sp_rollback",), ("flush",), ("commit",), ("set", "n", "val", "q"), ("rollback",), ("touch", "n", "val"), ("close",)],
